@@ -150,6 +150,19 @@ CHECKS = {
        "by running both on digests of all 256 lengths for every (sf,bw,cr,header) and 8 (quick) or all 257 (thorough, 42.1 M cases, exhaustive) preamble settings.",
   note=COMMON_NOTE + "Spec/Airtime.v states the SX127x datasheet formula with CRC on and the library's documented microsecond-truncated symbol time.",
   tech="machine-checked proof in Coq (model = spec for all inputs) + exhaustive model/implementation correspondence", ref="6 C16"),
+ "C20": dict(
+  text="Coq theorems (Props/C20.v) about a model of the serialised form at the level of JSON values as serde_json hands them to the visitors (derived Session / key / address visitors, the "
+       "hand-written Uplink visitor): for EVERY representable session (pending answers within 15 bytes, 16-byte keys, 32-bit counters) restore(serialise s) = s in every field, hence every "
+       "function of the restored session (next uplink, verdict on a replayed downlink) equals that of the original; every state a session can reach is representable (a new session is; uplink "
+       "preparation, window end incl. ADR back-off, and acceptance of ANY received byte string keep it: pending answers stay whole bytes within 15 by cases over the command handler, counters stay "
+       "32-bit); EVERY document the deserialiser accepts yields a representable session (on which, by C04, nothing panics) that is stable under store/restore. Tied to the code by persisting and "
+       "restoring (and dumping the serialised text, compared character by character with the model's) at every step of random and boundary histories (pending answers filled to and beyond 15 bytes, "
+       "counters at 0/0xFFFF/0x10000/2^32-2/2^32-1, 'no downlink yet', replays after the restore), twin runs with/without persistence on the implementation, and ~1000 (quick) structurally "
+       "mutated documents (each field removed / duplicated / retyped with 31 hostile values, every pending_len, unknown fields, sequence forms, syntax damage, random byte edits) with operations afterwards.",
+  note=COMMON_NOTE + "serde / serde_json themselves are external code: their visitor protocol (object or sequence for derived structs, unknown-field and duplicate-field rules, missing Option = None, "
+       "integer range checks, exact array lengths) is MODELLED in Model/Persist.v and tied by the document correspondence; the JSON text reader/printer in ocaml/driver.ml is trusted glue. "
+       "The device front-ends' new_with_session / set_session only move the Session value.",
+  tech="machine-checked proof in Coq (serialise/restore round trip for all representable sessions; reachable sessions representable; accepted documents representable) + step-wise persistence correspondence incl. serialised text + twin runs + mutated-document correspondence", ref="6 C20"),
 }
 PENDING = "check under construction in this session (Coq model + correspondence planned in DESIGN.md section 6); not claimed until it runs"
 
